@@ -29,6 +29,11 @@ def render(c):
         word, env = "$PV", {"PV": pay}
     elif d == "bvar":
         word, env = "${PV}", {"PV": pay}
+    elif d == "nestbq":
+        # one kind of substitution nested in the command of the other kind: the inner output is data of the outer command
+        word, vh = "`echo $(vout 1)`", {"out.1": pay + "\n"}
+    elif d == "nestds":
+        word, vh = "$(echo `vout 1`)", {"out.1": pay + "\n"}
     elif d == "envsub":
         # the value reaches the word through a reference INSIDE the command of an embedded substitution: it is data of that command
         word, env = "z$(echo $PV)", {"PV": pay}
@@ -139,6 +144,8 @@ def runner(rep, tier, seed, replay):
         cases.append(dict(vs[k], pair=ds[-1 - k]["pay"]))
     cases += [dict(c, **{"del": ("envsub" if k % 2 == 0 else "envbq")}) for k, c in enumerate(cases)
               if c["del"] == "var" and not c.get("realin") and c.get("pair") is None and chars(c["pay"]).strip() == chars(c["pay"]) and chars(c["pay"]) != ""]
+    cases += [dict(c, **{"del": ("nestbq" if k % 2 == 0 else "nestds")}) for k, c in enumerate(cases)
+              if c["del"] == "dsub" and not c.get("realin") and c.get("pair") is None and chars(c["pay"]).strip() == chars(c["pay"]) and chars(c["pay"]) != ""]
     cases += [dict(c, **{"del": ("assignvar", "assignsub", "assignbq")[k % 3], "q": "dq", "pos": "middle"}) for k, c in enumerate(cases)
               if c["del"] == "var" and c["q"] == "dq" and c["pos"] == "middle" and not c.get("realin") and c.get("pair") is None and chars(c["pay"]) != ""]
     log("[C13] %d cases" % len(cases))
